@@ -14,10 +14,11 @@ Sub(bs) == [x \in {bs[i][1] : i \in DOMAIN bs} |-> bs[CHOOSE i \in DOMAIN bs : b
 AtomLits(body) == SelectSeq(body, LAMBDA l : l[1] \in {"pos", "neg"})
 
 \* ancestors: facts on the path from the root (no fact may be its own ancestor)
-RECURSIVE ValidProof(_, _, _, _, _)
-ValidProof(n, rules, edbPreds, M, anc) ==
+RECURSIVE ValidProof(_, _, _, _, _, _)
+\* base: the facts the program states (unit clauses) - leaves also when their predicate has rules
+ValidProof(n, rules, edbPreds, base, M, anc) ==
   /\ n.fact \notin anc
-  /\ CASE n.kind = "edb"     -> n.fact \in M /\ <<n.fact.p, Len(n.fact.a)>> \in edbPreds /\ n.premises = <<>>
+  /\ CASE n.kind = "edb"     -> n.fact \in M /\ (<<n.fact.p, Len(n.fact.a)>> \in edbPreds \/ n.fact \in base) /\ n.premises = <<>>
        [] n.kind = "absence" -> n.fact \notin M /\ n.premises = <<>>
        [] n.kind = "derived" ->
             /\ n.rule \in rules
@@ -32,7 +33,7 @@ ValidProof(n, rules, edbPreds, M, anc) ==
                     /\ \A k \in DOMAIN lits :
                          /\ n.premises[k].fact = Inst(lits[k][2], s)
                          /\ (lits[k][1] = "neg") <=> (n.premises[k].kind = "absence")
-               /\ \A k \in DOMAIN n.premises : ValidProof(n.premises[k], rules, edbPreds, M, anc \cup {n.fact})
+               /\ \A k \in DOMAIN n.premises : ValidProof(n.premises[k], rules, edbPreds, base, M, anc \cup {n.fact})
        [] n.kind \in {"let", "do"} -> TRUE     \* transform nodes (recorded mode) are not judged here
        [] OTHER -> FALSE
 
